@@ -5,16 +5,23 @@ from vf.props import _resolver_common as RC
 
 ID = "C06"
 RULE = (
-    "every sequence up to length L (quick 4, thorough 5; exhaustive) over a 21-letter alphabet of real citation objects "
+    "every sequence up to length L (quick 4, thorough 5; exhaustive) over a 31-letter alphabet of real citation objects "
     "(full A / A-variant / B same reporter+volume / C shared party / placeholder page, law, journal, journal with "
     "placeholder page, short by-antecedent/ambiguous/unique/foreign, supra unique/ambiguous/unknown, reference, id "
     "none/valid/far/non-numeric pin, unknown), plus citation lists extracted from generated documents; oracle: the "
     "output is a partition into input-ordered sub-sequences of input objects, each starting with a full citation, "
-    "full citations grouped exactly by an independent equality, no unknown citation. Non-trivial: >= 1 full and >= 1 "
+    "full citations grouped exactly by an independent equality, no unknown citation; sequences up to length 3 are "
+    "resolved a second time together with clones (copy / deepcopy / pickle round trip) of their full citations. Non-trivial: >= 1 full and >= 1 "
     "non-full citation in the list; distinct = distinct sequence / text"
 )
 ASSUMPTIONS = ["corrected_reporter() is trusted for the independent equality (checked by C16)", "default resolvers only"]
 setup = RC.setup
+
+
+def _full():
+    from eyecite.models import FullCitation
+
+    return FullCitation
 
 
 def evaluate(case):
@@ -29,6 +36,24 @@ def evaluate(case):
         res.label("raised")
         return res
     E.check_c06(res, cits, out)
+    if "seq" in case and len(cits) <= 3 and any(isinstance(c, _full()) for c in cits):
+        # Citation objects travel (caches, worker processes): the list resolved once more together with clones of its
+        # full citations, made AFTER the first resolution has hashed and compared them. A clone is another citation
+        # object with the same content and is subject to the same laws.
+        import copy
+        import pickle
+
+        how = ("copy", "deep", "pickle")[sum(len(l) for l in case["seq"]) % 3]
+        f = {"copy": copy.copy, "deep": copy.deepcopy, "pickle": lambda x: pickle.loads(pickle.dumps(x))}[how]
+        clones = [f(c) for c in cits if isinstance(c, _full())]
+        both = list(cits) + clones
+        out2 = E.resolve(both)
+        if not isinstance(out2, Raised):
+            sub = Res()
+            E.check_c06(sub, both, out2)
+            for bucket, detail, *_ in sub.violations:
+                res.v(f"with-clones[{how}]:" + bucket, detail)
+            res.label("resolved-with-clones")
     if "seq" in case:
         # writer-based: which full-citation letters denote the same case is known from what was written
         exp = E.abstract_resolution(case["seq"])
